@@ -95,12 +95,12 @@ func (w *vWorld) badCookie(variant, user string, level int) string {
 	panic("unknown cookie variant " + variant)
 }
 
-var vInsideAddr = "10.1.2.3:5555"
+var vInsideAddr = "10.1.18.3:5555"
 var vOutsideAddr = "192.0.2.10:40000"
-var vOutsideNearAddr = "10.1.200.7:40000" // outside 10.1.0.0/20, inside 10.1.0.0/16
+var vOutsideNearAddr = "10.1.2.7:40000" // outside 10.1.16.0/20, inside 10.1.0.0/16 - and inside what a decoder that loses the partial octet reads (10.1.0.0/20)
 
 func vNetblocks() []net.IPNet {
-	_, n1, _ := net.ParseCIDR("10.1.0.0/20") // deliberately not octet aligned
+	_, n1, _ := net.ParseCIDR("10.1.16.0/20") // deliberately not octet aligned, and with bits set in the partial octet
 	_, n2, _ := net.ParseCIDR("127.0.0.0/8")
 	return []net.IPNet{*n1, *n2}
 }
@@ -196,8 +196,8 @@ func (w *vWorld) applyCred(q *vReq, cred map[string]interface{}) {
 			if q.Headers == nil {
 				q.Headers = map[string]string{}
 			}
-			q.Headers["X-Forwarded-For"] = "10.1.2.3"
-			q.Headers["X-Real-Ip"] = "10.1.2.3"
+			q.Headers["X-Forwarded-For"] = "10.1.18.3"
+			q.Headers["X-Real-Ip"] = "10.1.18.3"
 		} else {
 			q.Remote = vOutsideAddr
 		}
